@@ -80,6 +80,23 @@ func Lock(m Locker, site string) {
 	}
 }
 
+// LockLocker acquires a sync.Locker (e.g. the L of a sync.Cond)
+// cooperatively when it offers TryLock.
+func LockLocker(l sync.Locker, site string) {
+	h := hooks.Load()
+	tl, ok := l.(interface{ TryLock() bool })
+	if h == nil || h.Yield == nil || !ok {
+		l.Lock()
+
+		return
+	}
+
+	h.Yield(site)
+	for !tl.TryLock() {
+		h.Blocked(site)
+	}
+}
+
 // RLock acquires the read side of m cooperatively under a simulator.
 func RLock(m RLocker, site string) {
 	h := hooks.Load()
